@@ -200,6 +200,14 @@ def deleteEntry (s : St) (p : RPath) (recursive delChunks : Bool) : St × Res ×
 
 abbrev Mv := St × Res × List Nat
 
+/-- one child inside moveFolderSubEntries: stop at the first failure -/
+def moveStep (rec : St → RPath → Entry → RPath → Mv) (old new : RPath) (acc : Mv) (item : String × Entry) : Mv :=
+  match acc with
+  | (sa, .ok, qa) =>
+    match rec sa (item.1 :: old) item.2 (item.1 :: new) with
+    | (sb, rb, qb) => (sb, rb, qa ++ qb)
+  | other => other
+
 /-- moveEntry (moveSelfEntry + moveFolderSubEntries); fuel = nesting depth, exhausted ⇒ `diverge` -/
 def moveEntry : Nat → St → RPath → Entry → RPath → Mv
   | 0, s, _, _, _ => (s, .diverge, [])
@@ -207,16 +215,7 @@ def moveEntry : Nat → St → RPath → Entry → RPath → Mv
     if old = new then (s, .ok, []) else
     match createEntry s new { e with hl := 0, cnt := 0 } false with
     | (s1, .ok, q1) =>
-      let sub : Mv :=
-        if e.isDir then
-          (children s1 old).foldl (fun (acc : Mv) item =>
-            match acc with
-            | (sa, .ok, qa) =>
-              match moveEntry f sa (item.1 :: old) item.2 (item.1 :: new) with
-              | (sb, rb, qb) => (sb, rb, qa ++ qb)
-            | other => other) (s1, .ok, [])
-        else (s1, .ok, [])
-      match sub with
+      match (if e.isDir then (children s1 old).foldl (moveStep (moveEntry f) old new) (s1, .ok, []) else (s1, .ok, [])) with
       | (s2, .ok, q2) =>
         match deleteEntry s2 old false false with
         | (s3, .ok, _) => (s3, .ok, q1 ++ q2)
@@ -230,6 +229,27 @@ def renameEntry (s : St) (src dst : RPath) : Mv :=
   match find s src with
   | none => (s, .err, [])
   | some e => moveEntry renameFuel s src e dst
+
+/-! ### the client protocol for hard links (weed/filesys/dir_link.go) -/
+
+/-- the checks the kernel's VFS makes before the file system's Link is called: new name absent, its directory present -/
+def linkTargetOk (s : St) (dst : RPath) : Bool :=
+  (find s dst).isNone && (match dst with
+    | [] => false
+    | [_] => true
+    | _ :: par => ((find s par).map (·.isDir)).getD false)
+
+/-- Dir.Link: a plain file gets the new identity with counter 1; then the counter is incremented -/
+def linked (o : Entry) (hl : Nat) : Entry :=
+  if o.hl = 0 then { o with hl := hl, cnt := 2 } else { o with cnt := o.cnt + 1 }
+
+/-- UpdateEntry(old name) then CreateEntry(new name), both with the linked entry -/
+def linkOp (s : St) (src dst : RPath) (hl : Nat) : St × Res × List Nat :=
+  match find s src with
+  | none => (s, .notfound, [])
+  | some o =>
+    if o.isDir || !linkTargetOk s dst then (s, .err, [])
+    else createEntry (wInsert s src (linked o hl)) dst (linked o hl) false
 
 /-! ### operations of the trace -/
 
@@ -257,22 +277,7 @@ def step (s : St) : Op → St × Out
       | some o => { isDir := false, tag := tag, chunks := chunks, hl := o.hl, cnt := o.cnt }
       | none => { isDir := false, tag := tag, chunks := chunks, hl := 0, cnt := 0 }
     match createEntry s p e false with | (s', r, q) => (s', { res := r, q := q })
-  | .link src dst hl =>
-    match find s src with
-    | none => (s, { res := .notfound })
-    | some o =>
-      if o.isDir then (s, { res := .err }) else
-      -- the VFS checks made before the file system's Link is called: new name absent, its directory present
-      if (find s dst).isSome then (s, { res := .err }) else
-      if !(match dst with
-          | [] => false
-          | _ :: [] => true
-          | _ :: par => ((find s par).map (·.isDir)).getD false) then (s, { res := .err }) else
-      let o1 : Entry := if o.hl = 0 then { o with hl := hl, cnt := 1 } else o
-      let o2 : Entry := { o1 with cnt := o1.cnt + 1 }
-      -- Filer.UpdateEntry(found, o2): both are files, the type checks pass
-      let s1 := wInsert s src o2
-      match createEntry s1 dst o2 false with | (s', r, q) => (s', { res := r, q := q })
+  | .link src dst hl => match linkOp s src dst hl with | (s', r, q) => (s', { res := r, q := q })
   | .delete p r _ dc => match deleteEntry s p r dc with | (s', r, d) => (s', { res := r, d := d })
   | .unlink p =>
     match find s p with
